@@ -576,3 +576,177 @@ def run_disable(case):
     res.nontrivial = case['actor'] < case['ncomp'] - 1
     res.sample = {'log': log}
     return res
+
+
+# --------------------------------------------------------------------------
+# nested batch: a callback delivered by a release runs a batch of its own
+# (disable, attach/detach, enable) while older postponed callbacks are still
+# owed - "postponed callbacks are delivered in operation order"
+# --------------------------------------------------------------------------
+
+def gen_nested(rng):
+    n = rng.randint(2, 6)
+    ops = []
+    for k in range(n):
+        # 'add': a new entity with component k; 'remove': component k was
+        # attached (and told so) before the batch and is detached in it
+        ops.append(rng.choice(['add', 'add', 'remove']))
+    return {'scenario': 'nested_batch', 'ops': ops,
+            'actor': rng.randrange(n - 1),
+            'nested': [rng.choice(['add', 'remove_served', 'remove_owed',
+                                   'delete_served'])
+                       for _ in range(rng.randint(1, 3))],
+            'leave_disabled': rng.random() < 0.15,
+            # the actor's callback raises (instead of its batch, or at the
+            # end of it with dispatching still disabled); the program
+            # catches that and enables dispatching (again)
+            'fault': rng.choice([None, None, None, 'instead', 'in_batch'])}
+
+
+def run_nested(case):
+    desper = import_desper()
+    res = Res()
+    w = desper.World()
+    log = []
+    state = {'acted': False}
+    ops = case['ops']
+    n = len(ops)
+    expected = []
+
+    def nested_batch():
+        """Runs inside the actor's callback, older callbacks still owed."""
+        w.dispatch_enabled = False
+        served = [k for k in range(case['actor'])
+                  if ops[k] == 'add' and k not in gone]
+        owed = [k for k in range(case['actor'] + 1, n)
+                if ops[k] == 'add' and k not in gone]
+        for i, what in enumerate(case['nested']):
+            if what == 'add':
+                c = Comp()
+                c.uid = f'n{i}'
+                comps[c.uid] = c
+                ents[c.uid] = w.create_entity(c)
+                expected.append((c.uid, 'add'))
+            elif what in ('remove_served', 'delete_served') and served:
+                k = served.pop(0)
+                gone.add(k)
+                if what == 'remove_served':
+                    w.remove_component(ents[k], Comp)
+                else:
+                    w.delete_entity(ents[k], immediate=True)
+                expected.append((k, 'remove'))
+            elif what == 'remove_owed' and owed:
+                # attached in the outer batch, its on_add is still owed:
+                # the on_remove comes after it, in operation order
+                k = owed.pop()
+                gone.add(k)
+                w.remove_component(ents[k], Comp)
+                expected.append((k, 'remove'))
+        if case.get('fault') == 'in_batch':
+            state['fault'] = HarnessError('fault in the nested batch')
+            raise state['fault']
+        if not case['leave_disabled']:
+            w.dispatch_enabled = True
+
+    def act():
+        state['acted'] = True
+        if case.get('fault') == 'instead':
+            state['fault'] = HarnessError('fault in a released callback')
+            raise state['fault']
+        nested_batch()
+
+    def on_add(self, entity, world):
+        log.append((self.uid, 'add'))
+        owners.append((self.uid, entity, world))
+        if self.uid == case['actor'] and not state['acted']:
+            act()
+
+    def on_remove(self, entity, world):
+        log.append((self.uid, 'remove'))
+        owners.append((self.uid, entity, world))
+        if self.uid == case['actor'] and not state['acted']:
+            act()
+
+    Comp = desper.event_handler('on_add', 'on_remove')(
+        type('Comp', (), {'on_add': on_add, 'on_remove': on_remove}))
+    comps, ents, gone, owners = {}, {}, set(), []
+    for k, what in enumerate(ops):
+        c = Comp()
+        c.uid = k
+        comps[k] = c
+        if what == 'remove':
+            state['acted'] = True       # not yet: told at once, no batch
+            ents[k] = w.create_entity(c)
+    state['acted'] = False
+    del log[:]
+    w.dispatch_enabled = False
+    for k, what in enumerate(ops):
+        if what == 'add':
+            ents[k] = w.create_entity(comps[k])
+        else:
+            w.remove_component(ents[k], Comp)
+            gone.add(k)
+        expected.append((k, what))
+    if log:
+        res.div(0, 'callback-while-disabled', 'a lifecycle callback ran while '
+                'dispatching was disabled', [], list(log))
+        return res
+    pre = list(expected)
+    try:
+        try:
+            w.dispatch_enabled = True
+        except HarnessError as ex:
+            if ex is not state.get('fault'):
+                raise
+            res.stats['nested_release_interrupted'] += 1
+            # what was not delivered is still owed: enabling (again; without
+            # a disable in between when the fault came instead of the batch)
+            # delivers it
+            w.dispatch_enabled = True
+        if case['leave_disabled']:
+            # the nested batch left dispatching disabled: what was owed stays
+            # owed, in order, until the program enables again
+            if not w.dispatch_enabled:
+                res.stats['nested_left_disabled'] += 1
+            w.dispatch_enabled = True
+    except Exception as ex:
+        res.div(0, 'nested-batch-raised', 'the enabling assignment raised',
+                'no exception', repr(ex))
+        return res
+    if res.divs:
+        return res
+    res.stats['nested_batches'] += 1
+    res.stats['callback_sequences_checked'] += len(expected)
+    res.tags['nested_shape'].add((ops[case['actor']], tuple(case['nested']),
+                                  case.get('fault')))
+    if not state['acted']:
+        raise HarnessError('the actor was never served')
+    for uid, entity, world in owners:
+        if entity != ents[uid] or world is not w:
+            res.div(1, 'nested-batch-owner', f'component {uid}: lifecycle '
+                    'callback with another owner or world', ents[uid], entity)
+            return res
+    if log != expected:
+        res.div(1, 'nested-batch-order', 'postponed lifecycle callbacks were '
+                'not delivered once each in operation order: a callback '
+                'delivered by the release '
+                + ('raised (the program caught that and enabled dispatching '
+                   'again)' if case.get('fault') == 'instead' else
+                   'ran a batch of its own (disable, '
+                   f'{case["nested"]}, '
+                   + ('then raised; the program enabled dispatching)'
+                      if case.get('fault') else 'enable)'))
+                + f' while {len(pre) - case["actor"] - 1} older callback(s) '
+                'were still owed', expected, list(log))
+        return res
+    for uid, c in comps.items():
+        attached = any(x is c for e in w.entities
+                       for x in w.get_components(e))
+        if w.is_handler(c) != attached:
+            res.div(2, 'nested-batch-registration', f'component {uid} '
+                    f'registered: {w.is_handler(c)}, attached: {attached}',
+                    attached, w.is_handler(c))
+            return res
+    res.nontrivial = len(expected) > len(pre) or bool(case.get('fault'))
+    res.sample = {'log': [list(x) for x in log]}
+    return res
